@@ -465,6 +465,9 @@ class EvolvableModule(nn.Module, metaclass=ModuleMeta):
             if key in old_buffers and old_buffers[key].size() == buffer.size():
                 buffer.data = old_buffers[key].data
 
+        # A freshly built network is in training mode: keep the mode of the one it replaces
+        new_net.train(old_net.training)
+
         return new_net
 
     @staticmethod
